@@ -64,6 +64,12 @@ func (p *Producer) UnmarshalJSON(b []byte) error {
 		TopologyZone:     r.TopologyZone,
 		TopologyRegion:   r.TopologyRegion,
 	}
+	if len(r.Tombstoned) < len(r.Topics) {
+		// an inconsistent reply must not crash the caller: missing flags mean "not tombstoned"
+		tombstoned := make([]bool, len(r.Topics))
+		copy(tombstoned, r.Tombstoned)
+		r.Tombstoned = tombstoned
+	}
 	for i, t := range r.Topics {
 		p.Topics = append(p.Topics, ProducerTopic{Topic: t, Tombstoned: r.Tombstoned[i]})
 	}
